@@ -66,7 +66,7 @@ def gen_cases(tier, seed):
         # depth 3 from the <=1-deviation roots (over the 15 core letters, see run_case) and
         # depth 2 over all 22 letters from the roots with exactly 2 deviations
         have = {tuple(sorted(k.items())) for k in keys}
-        for k in H.root_keys(tier, list(H.REGIMES), dev=2):
+        for k in H.root_keys(tier, ["disl", "yield"], dev=2):  # (two-deviation roots: the two dislocation-type regimes)
             k["depth"] = 3
             if tuple(sorted(k.items())) not in have:
                 k["depth"] = 2
